@@ -1368,7 +1368,6 @@ def shortest_int(data: np.ndarray, percent: float=50) -> tuple[float, float]:
         data = np.sort(data)
         lag = int(len(data) * percent/100)
         diff = diff_lag(data, lag)
-        i = np.where(np.abs(diff - np.min(diff)) < 1e-10)[0]
-        if len(i) > 1:
-            i = int(np.mean(i))
+        i = np.flatnonzero(diff == np.min(diff))  # every window of minimal width (ties are exact for quantised data)
+        i = i[len(i) // 2]  # the middle one of the tied windows: always an index that attains the minimum
         return np.array((data[i], data[i + lag]))
